@@ -6,6 +6,7 @@ import (
 	"encoding/json"
 	"errors"
 	"math"
+	"strings"
 
 	"github.com/nspcc-dev/neo-go/pkg/core/block"
 	"github.com/nspcc-dev/neo-go/pkg/core/transaction"
@@ -674,6 +675,7 @@ func txCodecs() []*codec {
 		hash:  txHash,
 		size:  txSize,
 		label: txLabel,
+		sig:   txSig,
 		reject: func() []namedBytes {
 			base := func(nsig int, attrs []byte, nattr int, script []byte, w []byte) []byte {
 				b := cat([]byte{0}, rep(0, 4), rep(0, 8), rep(0, 8), rep(0, 4), varint(uint64(nsig)))
@@ -708,7 +710,7 @@ func txCodecs() []*codec {
 	out = append(out, txb)
 	// Transaction through io.Serializable (block bodies, the database, notary requests).
 	txd := ser[transaction.Transaction]("transaction.Transaction/DecodeBinary", "pkg/core/transaction", transactions)
-	txd.hash, txd.size, txd.label = txHash, txSize, txLabel
+	txd.hash, txd.size, txd.label, txd.sig = txHash, txSize, txLabel, txSig
 	txd.reject = txb.reject
 	out = append(out, txd)
 	return out
@@ -855,6 +857,20 @@ func walkTx(b []byte) []span {
 		w.take(int(n), "witness-verification")
 	}
 	return w.spans
+}
+
+// txSig is the layout of a transaction encoding: its field sequence with the
+// widths of the length prefixes.
+func txSig(seed []byte) string {
+	var b strings.Builder
+	for _, s := range walkTx(seed) {
+		b.WriteString(s.label)
+		if strings.HasSuffix(s.label, "count") || strings.HasSuffix(s.label, "length") {
+			b.WriteByte(byte('0' + s.n))
+		}
+		b.WriteByte(',')
+	}
+	return b.String()
 }
 
 func txLabel(seed []byte, off int) string {
